@@ -587,7 +587,16 @@ class SchedRun:
             srng = random.Random(rng.getrandbits(64))
             sch = Scheduler(n, sc, srng)
             first = sc[1] if sc[0] in ("forced", "forced2") else (max(range(n), key=lambda i: sch.prio[i]) if sc[0] == "pct" else srng.randrange(n))
-        FS.hook = lambda kind, paths, mut: sch.yield_point(kind)
+        destructive = {}
+
+        def fs_hook(kind, paths, mut):
+            if kind in ("unlink", "remove", "rename", "replace", "rmdir", "trunc"):
+                me = sch.ids.get(threading.get_ident())
+                if me is not None:
+                    destructive.setdefault((me, self._cur_step.get(me, 0)), []).append((kind, os.path.basename(str(paths[0])) if paths else ""))
+            sch.yield_point(kind)
+
+        FS.hook = fs_hook
         FS.active = True
         # time.sleep() in the code under test takes no wall time here: the sleeper hands the
         # baton to another node (retry / back-off loops around locks)
@@ -709,8 +718,22 @@ class SchedRun:
             self.violations.append({"prop": "C05", "oracle": "C05.unexpected-exception", "sig": dict(label, oracle="C05.unexpected-exception", exc=name), "step": None,
                                     "detail": ("node %d step %d %s raised %s | results=%s switches=%s" % (i, k, (opof[(i, k)]["op"], opof[(i, k)]["name"]), name, got, sch.signature[:6]))[:900]})
             return recorded
+        # a request refused as locked is a request that did nothing: it removed, renamed or truncated no file
+        for sk in locked:
+            if destructive.get(sk):
+                kinds = sorted({k for k, _ in destructive[sk]})
+                self.violations.append({"prop": "C05", "oracle": "C05.refused-request-changed-files", "sig": dict(label, oracle="C05.refused-request-changed-files", events=",".join(kinds)), "step": None,
+                                        "detail": ("node %d step %d %s was refused (LockedError) after %s | results=%s switches=%s" % (sk[0], sk[1], (opof[sk]["op"], opof[sk]["name"]), destructive[sk][:4], got, sch.signature[:6]))[:900]})
+                return recorded
         if match is not None:
             return None
+        # the etag a write is acknowledged with names the content that write stored (content-addressed: the
+        # same request is acknowledged with the same etag in every sequential order in which it succeeds)
+        for sk in live:
+            if sres[sk][0] == "ok" and opof[sk]["op"] == "put":
+                own = {res[sk][1] for (order, res, fin) in outcomes_for(live) if res[sk][0] == "ok"}
+                if own and sres[sk][1] not in own:
+                    return viol("acknowledged-etag-not-of-own-content", "put of %s acknowledged with etag %s; executed alone or in any order it is acknowledged with %s" % (opof[sk]["name"], sres[sk][1], sorted(own)))
         # classify
         from .crash import git_blob_id
 
